@@ -277,6 +277,11 @@ def finish(ctx, assumptions=None):
         json.dump(ev, f, indent=1, default=str)
     for k in ctx.known:
         print(f"KNOWN-FINDING: property={ctx.prop} {k}")
+    # every listed finding of this property gets its line, also when this run's sample of schedules / scenarios did not reach it
+    seen_ids = {str(k).split(" ", 1)[0] for k in ctx.known}
+    for f in known_findings():
+        if f.get("status") == "known" and ctx.prop in f.get("properties", []) and f["id"] not in seen_ids:
+            print(f"KNOWN-FINDING: property={ctx.prop} {f['id']} {f['title'][:300]} (not reached by this run's sample; replay: {f.get('replay', 'see known_findings.json')})")
     for summary, replay, noinput in ctx.violations:
         tail = " no-failing-input-found" if noinput else ""
         print(f"VIOLATION property={ctx.prop} replay={replay} {summary}{tail}")
